@@ -814,6 +814,133 @@ def derived_tables(w):
     rows.append(("switch", "", "NetworkServiceSliver", False, sw_ns[0]))
     return rows, models
 
+
+# ---------------------------------------------------------------- names the library composes itself
+
+def _is_composed(n):
+    """a string built from parts: a + b, f"..{x}..", sep.join([...]), "..".format(..), "%s" % x"""
+    if isinstance(n, ast.BinOp) and isinstance(n.op, (ast.Add, ast.Mod)):
+        return True
+    if isinstance(n, ast.JoinedStr):
+        return True
+    if isinstance(n, ast.Call) and isinstance(n.func, ast.Attribute) and n.func.attr in ("join", "format"):
+        return True
+    return False
+
+
+def composed_names(w, entries):
+    """every place where fim/user, fim/slivers compose a name (or hand on a variable holding a composed name) and what it is
+    given to: `set_name` of a sliver (validated there), a `name=` argument of a constructor / add_* method (validated iff that
+    callee is an entry point whose name parameter reaches set_name), or anything else (not validated)"""
+    ok_entries = {e["entry"] for e in entries if e["domain"] == "name" and e["ok"] and not e["unguarded"]}
+    rows = []
+    g = Graph(w)
+    for fn in w.fns.values():
+        if not (fn.rel.startswith("fim/user/") or fn.rel.startswith("fim/slivers/")):
+            continue
+        composed_locals = set()
+        for x in ast.walk(fn.node):
+            if isinstance(x, ast.Assign) and len(x.targets) == 1 and isinstance(x.targets[0], ast.Name) and _is_composed(x.value):
+                composed_locals.add(x.targets[0].id)
+
+        def comp(v):
+            return _is_composed(v) or (isinstance(v, ast.Name) and v.id in composed_locals) or \
+                (isinstance(v, ast.BinOp) and any(isinstance(y, ast.Name) and y.id in composed_locals for y in ast.walk(v)))
+        locals_ = g.local_classes(fn)
+        for x in ast.walk(fn.node):
+            if isinstance(x, ast.Call):
+                m = x.func.attr if isinstance(x.func, ast.Attribute) else _name(x.func)
+                if m == "set_name" and x.args and comp(x.args[0]):
+                    recv = _name(x.func.value) if isinstance(x.func, ast.Attribute) else None
+                    rcls = locals_.get(recv)
+                    if rcls is None and isinstance(x.func, ast.Attribute) and isinstance(x.func.value, ast.Call) and _name(x.func.value.func) in w.classes:
+                        rcls = _name(x.func.value.func)            # InterfaceSliver().set_name(..)
+                    rows.append((fn.qual, "set_name", rcls or "?", bool(rcls) and w.derives(rcls, "BaseSliver")))
+                    continue
+                for k in x.keywords:
+                    if k.arg in ("name", "new_name", "resource_name") and comp(k.value):
+                        targets = [t for t, _ in g.resolve(fn, fn.cls, x, locals_)]
+                        # only callees that can take this call's keywords at all
+                        kws = {kk.arg for kk in x.keywords if kk.arg is not None}
+                        targets = [t for t in targets if w.fns[t].kwarg is not None and k.arg in w.fns[t].params or kws <= set(w.fns[t].params)]
+                        good = bool(targets) and all(t in ok_entries for t in targets)
+                        rows.append((fn.qual, "name=", ",".join(sorted(targets)) or (m or "?"), good))
+            elif isinstance(x, ast.Assign):
+                for t in x.targets:
+                    if isinstance(t, ast.Attribute) and t.attr in ("resource_name", "_name") and comp(x.value):
+                        rows.append((fn.qual, "assign", t.attr, False))
+    return sorted(set(rows))
+
+
+# ---------------------------------------------------------------- the statement skeleton of Labels._set_fields
+
+def set_fields_skeleton(w):
+    """the order of the checks in the loop body of Labels._set_fields, as a list of step names; anything unrecognised is named
+    `?<ast node>` so that the Lean `rfl` obligation that pins the order the hand-written model implements fails"""
+    fn = w.fns.get("Labels._set_fields")
+    if fn is None:
+        raise ExtractionError("Labels._set_fields not found")
+    body = strip_doc(fn.node.body)
+    if len(body) != 2 or not isinstance(body[0], ast.For) or not isinstance(body[1], ast.Return) or _name(body[1].value) != "self":
+        return ["?function-shape"]
+    loop = body[0]
+    out = []
+    kv = [_name(e) for e in loop.target.elts] if isinstance(loop.target, ast.Tuple) else []
+    if len(kv) != 2:
+        return ["?loop-target"]
+    k, v = kv
+
+    def isinst(n, ty):
+        return isinstance(n, ast.Call) and _name(n.func) == "isinstance" and len(n.args) == 2 and _name(n.args[1]) == ty
+
+    for st in loop.body:
+        if isinstance(st, ast.Assert):
+            t = st.test
+            if isinstance(t, ast.Compare) and _name(t.left) == v and isinstance(t.ops[0], ast.IsNot) and _is_none(t.comparators[0]):
+                out.append("assert:not-none")
+            elif isinstance(t, ast.BoolOp) and isinstance(t.op, ast.Or) and len(t.values) == 2 and isinst(t.values[0], "str") and _name(t.values[0].args[0]) == v:
+                b = t.values[1]
+                if isinst(b, "list") and _name(b.args[0]) == v:
+                    out.append("assert:str-or-list")
+                elif (isinstance(b, ast.BoolOp) and isinstance(b.op, ast.And) and len(b.values) == 2 and isinst(b.values[0], "list")
+                      and isinstance(b.values[1], ast.Call) and _name(b.values[1].func) == "all" and len(b.values[1].args) == 1
+                      and isinstance(b.values[1].args[0], ast.GeneratorExp) and isinst(b.values[1].args[0].elt, "str")
+                      and _name(b.values[1].args[0].generators[0].iter) == v and not b.values[1].args[0].generators[0].ifs):
+                    out.append("assert:str-or-list-of-str")
+                else:
+                    out.append("?assert")
+            else:
+                out.append("?assert")
+        elif isinstance(st, ast.Try):
+            for x in st.body:
+                if (isinstance(x, ast.If) and not x.orelse and len(x.body) == 1 and isinstance(x.body[0], ast.Raise)
+                        and isinstance(x.test, ast.Compare) and _name(x.test.left) == k and isinstance(x.test.ops[0], ast.NotIn)
+                        and isinstance(x.test.comparators[0], ast.Attribute) and x.test.comparators[0].attr == "__dict__"
+                        and _name(x.test.comparators[0].value) == "self"
+                        and isinstance(x.body[0].exc, ast.Call) and _name(x.body[0].exc.func) == "AttributeError"):
+                    out.append("field:instance-dict")
+                elif isinstance(x, ast.Expr) and isinstance(x.value, ast.Call) and getattr(x.value.func, "attr", "") == "__getattribute__":
+                    out.append("field:any-attribute")
+                elif isinstance(x, ast.If) and _contains(x.test, lambda y: isinstance(y, ast.Attribute) and y.attr == "LAMBDA_VALIDATORS"):
+                    out.append("range")
+                elif isinstance(x, ast.If) and _contains(x.test, lambda y: isinstance(y, ast.Attribute) and y.attr == "VALIDATORS"):
+                    out.append("regex")
+                elif isinstance(x, ast.Expr) and isinstance(x.value, ast.Call) and getattr(x.value.func, "attr", "") == "__setattr__" \
+                        and [_name(a) for a in x.value.args] == [k, v]:
+                    out.append("store")
+                else:
+                    out.append("?" + type(x).__name__)
+            hs = st.handlers
+            if (len(hs) == 1 and _name(hs[0].type) == "AttributeError" and not st.orelse and not st.finalbody
+                    and isinstance(hs[0].body[-1], ast.If) and _name(hs[0].body[-1].test) == "forgiving"
+                    and isinstance(hs[0].body[-1].orelse[-1], ast.Raise) and not _contains(ast.Module(body=hs[0].body[-1].body, type_ignores=[]), lambda y: isinstance(y, ast.Raise))):
+                out.append("unknown:forgiving-skips,strict-raises")
+            else:
+                out.append("?handlers")
+        else:
+            out.append("?" + type(st).__name__)
+    return out
+
 # ---------------------------------------------------------------- entry points
 
 def entry_params(w, fn):
@@ -942,18 +1069,32 @@ def generate():
             lean_list([lean_str(x) for x in e["reached"]]), lean_list([lean_str(x) for x in e["unguarded"]]),
             lean_list([lean_str(x) for x in e["name_classes"]]), "true" if e["entry"] in probes else "false")
         for e in entries) + "]\n\n"
-    drows, models = derived_tables(d["world"])
+    pending = None
+    try:
+        drows, models = derived_tables(d["world"])
+    except ExtractionError as e:      # still emit the store / entry-point tables of the source as it is; report afterwards
+        drows, models, pending = [], [], e
     body += "structure Derived where\n  kind : String\n  variant : String\n  cls : String\n  withParent : Bool\n  suffix : String\n  deriving Repr, DecidableEq\n\n"
     body += "/-- names an entry point derives from its name parameter and validates against another class's NAME_REGEX:\n"
     body += "    component (per catalogue model with interfaces): '<parent>-<name><ns suffix>' as a service, '<name>-<port>' as interfaces;\n"
     body += "    facility: '<name>-ns', '<name>-int'; switch: '<name>-ns' -/\n"
     body += "def derived : List Derived := [\n  " + ",\n  ".join(
         "⟨%s, %s, %s, %s, %s⟩" % (lean_str(a), lean_str(b), lean_str(c), "true" if p_ else "false", lean_str(sf)) for a, b, c, p_, sf in drows) + "]\n\n"
+    crows = composed_names(d["world"], entries)
+    body += "/-- names the library composes itself (a + b, f-strings, join) and what they are handed to: `set_name` of a sliver class,\n"
+    body += "    the name parameter of an entry point of the table above, or something that does not validate -/\n"
+    body += "def composedNames : List (String × String × String × Bool) := [\n  " + ",\n  ".join(
+        "(%s, %s, %s, %s)" % (lean_str(a), lean_str(b), lean_str(c), "true" if ok_ else "false") for a, b, c, ok_ in crows) + "]\n\n"
+    sk = set_fields_skeleton(d["world"])
+    body += "/-- the checks of one loop iteration of Labels._set_fields, in source order -/\n"
+    body += "def setFieldsSkeleton : List String := %s\n\n" % lean_list([lean_str(x) for x in sk])
     body += "/-- functions all of whose stores are guarded -/\n"
     body += "def guardedWriters : List String := %s\n" % lean_list([lean_str(x) for x in d["guarded_writers"]])
     changed = emit("EntryPoints", body)
+    if pending is not None:
+        raise pending
     return {"stores": len(stores), "unguarded_stores": [s for s in stores if s[3] == "unguarded"],
             "entry_points": len(names), "rows": len(entries), "probed": len([n for n in names if n in probes]),
             "exempt": {n: exempt[n] for n in names if n in exempt},
             "not_reaching": [(e["entry"], e["param"]) for e in entries if not e["ok"]], "changed": changed,
-            "derived_rows": len(drows), "dropped_kwargs": sorted(DROPPED_KWARGS), "not_entry": NOT_ENTRY}
+            "set_fields_skeleton": sk, "derived_rows": len(drows), "composed_names": len(crows), "composed_unvalidated": [r for r in crows if not r[3]], "dropped_kwargs": sorted(DROPPED_KWARGS), "not_entry": NOT_ENTRY}
